@@ -464,3 +464,182 @@ def c11_gtf_file_roundtrip_multi(gs: int, ge: int, plus: bool, a0: int, b0: int,
         if t.gene_id != ('G2' if tid == 'T3' else 'G1') or t.cds or t.utr or t.selenocysteine:
             return -8
     return OK
+
+
+# --------------------------------------------------------------------------
+# on-disk annotation == fully parsed annotation, through the real pointer load (binary handle stand-in)
+# --------------------------------------------------------------------------
+import io as _io
+
+
+class _BLine:
+    def __init__(self, text, n):
+        self.text, self.n = text, n
+
+    def __len__(self):
+        return self.n
+
+    def decode(self, enc):
+        return self.text
+
+
+class _Buf:
+    def __init__(self, texts):
+        self.texts = texts
+
+    def decode(self, enc):
+        return ''.join(self.texts)
+
+
+class _BinFile(_io.IOBase):
+    """binary GTF file: line i has text texts[i] (ending in a newline) and occupies lens[i] bytes"""
+
+    def __init__(self, texts, lens):
+        super().__init__()
+        self.texts, self.lens = texts, lens
+        self.off = [0]
+        for n in lens:
+            self.off.append(self.off[-1] + n)
+        self.pos = 0
+        self.reads = 0
+
+    def __iter__(self):
+        for t, n in zip(self.texts, self.lens):
+            self.pos += n
+            yield _BLine(t, n)
+
+    def tell(self):
+        return self.pos
+
+    def seek(self, offset, whence=0):
+        self.pos = offset if whence == 0 else self.pos + offset
+        return self.pos
+
+    def read(self, n=-1):
+        self.reads += 1
+        if self.pos not in self.off or self.pos + n not in self.off:
+            raise ValueError('byte range does not start and end at line boundaries')
+        i, j = self.off.index(self.pos), self.off.index(self.pos + n)
+        self.pos += n
+        return _Buf(self.texts[i:j])
+
+    def close(self):
+        pass
+
+
+def _ondisk(gs, ge, plus, a0, b0, a1, b1, c0, c1, hs, he, d0, d1, order, again):
+    import io
+    from moPepGen import gtf
+    from moPepGen.gtf import GTFPointer as gpm
+    from moPepGen.gtf.GenomicAnnotationOnDisk import GenomicAnnotationOnDisk
+    from mpgverif.harness.annobuild import anno_multi, exons_valid, gene_model, tx_model
+    strand = 1 if plus else -1
+    ex = {'T1': [(a0, b0), (a1, b1)], 'T2': [(c0, c1)], 'T3': [(d0, d1)]}
+    if not exons_valid(gs, ge, ex['T1']) or not exons_valid(gs, ge, ex['T2']) or not exons_valid(hs, he, ex['T3']):
+        return SKIP
+    anno = anno_multi(gs, ge, strand, [ex['T1'], ex['T2']])
+    anno.genes['G2'] = gene_model('G2', 'chr1', hs, he, -strand, ['T3'])
+    anno.transcripts['T3'] = tx_model('T3', 'G2', 'chr1', -strand, ex['T3'])
+    handle = io.StringIO()
+    GtfIO.write(handle, anno)
+    texts = [t + '\n' for t in handle.getvalue().split('\n') if t]
+    lens = [7, 11, 13, 17, 19, 23, 29, 31, 37, 41, 43, 47, 53][:len(texts)]
+    if len(lens) != len(texts):
+        return -10
+    full = gtf.GenomicAnnotation()
+    full.dump_gtf(io.StringIO(''.join(texts)), source='GENCODE')
+    binf = _BinFile(texts, lens)
+    od = GenomicAnnotationOnDisk()
+    keys = [['T1', 'T2', 'T3'], ['T1', 'T3', 'T2'], ['T2', 'T1', 'T3'], ['T2', 'T3', 'T1'], ['T3', 'T1', 'T2'],
+            ['T3', 'T2', 'T1']][concretize(order, 0, 5)]
+    keys = keys + [keys[concretize(again, 0, 2)]]
+
+    def ivs(lst):
+        return [(f.location.start, f.location.end, f.location.strand) for f in lst]
+
+    with patched((gpm, 'TX_DICT_CACHE_SIZE', 1), (gpm, 'GENE_DICT_CACHE_SIZE', 1)):
+        od.generate_index(binf, source='GENCODE')
+        if set(od.transcripts.keys()) != {'T1', 'T2', 'T3'} or set(od.genes.keys()) != {'G1', 'G2'}:
+            return -1
+        for k in keys:
+            m, want = od.transcripts[k], full.transcripts[k]
+            if ivs(m.exon) != ivs(want.exon) or ivs(m.cds) != ivs(want.cds) or ivs(m.utr) != ivs(want.utr):
+                return -2          # on-disk transcript model differs from the parsed one
+            if (m.transcript.location.start, m.transcript.location.end, m.transcript.location.strand) != \
+                    (want.transcript.location.start, want.transcript.location.end, want.transcript.location.strand):
+                return -2
+            if m.transcript_id != k or m.gene_id != want.gene_id:
+                return -3
+            g, gw = od.genes[m.gene_id], full.genes[m.gene_id]
+            if (g.location.start, g.location.end, g.location.strand) != (gw.location.start, gw.location.end,
+                                                                        gw.location.strand):
+                return -4
+            if sorted(g.transcripts) != sorted(gw.transcripts):
+                return -5
+    return OK
+
+
+@cond('C11', bounds='on-disk annotation over a binary file stand-in (concrete distinct line byte lengths): 2 genes on opposite '
+      'strands, 3 transcripts (2 + 1 + 1 exons), all coordinates symbolic < 59000; every access order of the three transcripts '
+      'plus a repeated access of the first, cache size 1; compared with the fully parsed annotation of the same text', tokens=True,
+      encodes=['moPepGen.gtf.GenomicAnnotationOnDisk.GenomicAnnotationOnDisk.generate_index', 'moPepGen.gtf.GTFPointer.'
+               'iterate_pointer / TranscriptPointer.load / GenePointer.load / TranscriptPointerDict.__getitem__ / '
+               'GenePointerDict.__getitem__', 'moPepGen.gtf.GtfIO.write / line_to_seq_feature',
+               'moPepGen.gtf.GenomicAnnotation.dump_gtf'],
+      stubs=['binary file -> line list with byte lengths (tell / seek / read at line boundaries only)',
+             'TX_DICT_CACHE_SIZE, GENE_DICT_CACHE_SIZE -> 1'],
+      codes={-1: 'set of indexed genes / transcripts wrong', -2: 'on-disk transcript model differs from the fully parsed one',
+             -3: 'ids of the loaded model wrong', -4: 'on-disk gene model differs from the fully parsed one',
+             -5: "gene's transcript list differs", -10: 'unexpected number of GTF lines'}, timeout=600)
+def c11_ondisk_models(gs: int, ge: int, plus: bool, a0: int, b0: int, a1: int, b1: int, c0: int, c1: int, hs: int,
+                      he: int, d0: int, d1: int, order: int) -> int:
+    """
+    pre: 0 <= gs and ge < 59000 and 0 <= hs and he < 59000
+    pre: 0 <= order <= 5
+    post: _ >= 0
+    """
+    return _ondisk(gs, ge, plus, a0, b0, a1, b1, c0, c1, hs, he, d0, d1, order, 0)
+
+
+def _two_annotations(gs, ge, plus, a0, b0, a1, b1, delta):
+    """two on-disk annotations alive in the same process with the SAME gene / transcript ids and different coordinates
+    (e.g. two releases): every lookup must return the model of its own file"""
+    import io
+    from moPepGen import gtf
+    from moPepGen.gtf.GenomicAnnotationOnDisk import GenomicAnnotationOnDisk
+    from mpgverif.harness.annobuild import anno_one_gene, exons_valid
+    strand = 1 if plus else -1
+    if not exons_valid(gs, ge, [(a0, b0), (a1, b1)]) or delta < 1 or ge + delta >= 59000:
+        return SKIP
+    sides = []
+    for d in (0, delta):
+        anno = anno_one_gene(gs + d, ge + d, strand, [(a0 + d, b0 + d), (a1 + d, b1 + d)])
+        h = io.StringIO()
+        GtfIO.write(h, anno)
+        texts = [t + '\n' for t in h.getvalue().split('\n') if t]
+        od = GenomicAnnotationOnDisk()
+        od.generate_index(_BinFile(texts, [7, 11, 13, 17, 19, 23][:len(texts)]), source='GENCODE')
+        sides.append((od, d))
+    for od, d in (sides[0], sides[1], sides[0], sides[1]):
+        t = od.transcripts['T1']
+        if [(f.location.start, f.location.end) for f in t.exon] != [(a0 + d, b0 + d), (a1 + d, b1 + d)]:
+            return -2
+        g = od.genes['G1']
+        if (g.location.start, g.location.end, g.location.strand) != (gs + d, ge + d, strand):
+            return -4
+    return OK
+
+
+@cond('C11', bounds='two on-disk annotations in one process with the same ids, the second shifted by a symbolic offset >= 1 '
+      '(1 gene, 1 transcript of 2 exons, coordinates symbolic < 59000); alternating lookups', tokens=True,
+      encodes=['moPepGen.gtf.GenomicAnnotationOnDisk.GenomicAnnotationOnDisk.generate_index', 'moPepGen.gtf.GTFPointer.'
+               'TranscriptPointerDict.__getitem__ / GenePointerDict.__getitem__ / TranscriptPointer.load / GenePointer.load'],
+      stubs=['binary file -> line list with byte lengths'],
+      codes={-2: 'a transcript lookup returned the model of the other annotation (or a wrong model)',
+             -4: 'a gene lookup returned the model of the other annotation (or a wrong model)'}, timeout=400)
+def c11_ondisk_two_annotations(gs: int, ge: int, plus: bool, a0: int, b0: int, a1: int, b1: int, delta: int) -> int:
+    """
+    pre: 0 <= gs and ge < 59000
+    post: _ >= 0
+    """
+    return _two_annotations(gs, ge, plus, a0, b0, a1, b1, delta)
